@@ -363,6 +363,8 @@ def run_c08(ctx):
         ctx.ob("C08-b", "Metadata.l_matrix is that matrix", scalar_of(lm.at("a", "b"), "l_matrix") == leaf("Lmat", "a", "b"), "sampling::sample",
                "metadata-l-matrix")
         sites_modelled(ctx, w, "C08-b", ("sector", "lmatrix", "decompose"))
+        from .common import signature_wiring
+        signature_wiring(ctx, ctx.roles, "C08-b")
     guarded_clause(ctx, "C08-b", "sampling::sample", "u-wiring", b)
     ctx.rule("C08-c", "the determinant returned as u is (Π_i q[i,i])² of the factor defined by the Cholesky–Banachiewicz recurrence on that matrix")
     cholesky_clause(ctx, "C08-c")
@@ -426,6 +428,8 @@ def run_c09(ctx):
         dargs = w.calls.get("decompose")
         ok = dargs is not None and isinstance(dargs[0], Arr) and scalar_of(dargs[0].at("a", "b"), "arg") == leaf("Lmat", "a", "b")
         ctx.ob("C09-c", "u and L⁻¹ come from the decomposition of that matrix", ok, "sampling::sample", "decompose-receives-l-matrix")
+        from .common import signature_wiring
+        signature_wiring(ctx, ctx.roles, "C09-c")
     guarded_clause(ctx, "C09-c", w.roles["lmatrix"].path, "l-matrix", c)
     # d: the `inverse` that enters V is the inverse of that matrix (Cholesky recurrence, nilpotent series, assembly, product wiring)
     run_c15e(ctx, "C09-d")
@@ -482,6 +486,12 @@ def run_c10(ctx):
         masses = ssum(leaf("x", e2) * (mhat(e2) * mhat(e2) + ssum(leaf("p", e2, c) * leaf("p", e2, c), c, "D")), e2, "E")
         cross = ssum(ssum(ssum(leaf("u", l1, c2) * leaf("u", l2, c2), c2, "D") * leaf("Linv", l1, l2), l1, "L"), l2, "L")
         compare(ctx, "C10-e", "v == Σ x(m²+p²) − uᵀL⁻¹u", scalar_of(w.rec["vpoly"], "v"), masses - cross, w.roles["vpoly"].path, "v-polynomial", {})
+        # the matrix whose inverse and Cholesky factor enter the map (Q·Qᵀ = L of the statement)
+        e3 = fresh("e")
+        compare(ctx, "C10-e", "L[a,b] == Σ_e x_e s[e,a] s[e,b]", scalar_of(w.rec["lmatrix"].at("a", "b"), "L entry"),
+                ssum(leaf("x", e3) * leaf("sig", e3, "a") * leaf("sig", e3, "b"), e3, "E"), w.roles["lmatrix"].path, "l-matrix-entry", {"a": "L", "b": "L"})
+        from .common import signature_wiring
+        signature_wiring(ctx, ctx.roles, "C10-e")
     guarded_clause(ctx, "C10-e", w.roles["vpoly"].path, "u-and-v", e_)
 
 
